@@ -1,2 +1,750 @@
-use crate::engine_a::ExecOut;
-pub fn run(_prop: &str, _thorough: bool, _case_seed: u64, _sub: u64) -> ExecOut { ExecOut::default() }
+//! Engine C: ConcurrentStream pipelines (source -> stack of map/enumerate/take/limit -> terminal) with a
+//! scripted source and scripted per-item futures; oracles for C13, C14, C15 (+ C01/C02/C03 on pipelines).
+
+use crate::child::*;
+use crate::engine_a::{self, ExecOut};
+use crate::mix;
+use crate::model;
+use crate::world::*;
+use futures_concurrency::prelude::*;
+use futures_core::Stream;
+use std::cell::RefCell;
+use std::collections::BTreeMap;
+use std::future::Future;
+use std::marker::PhantomPinned;
+use std::num::NonZeroUsize;
+use std::pin::Pin;
+use std::sync::Arc;
+use std::task::{Context, Poll, Waker};
+
+/// an item travelling through the pipeline
+pub struct It {
+    pub pos: u64,
+    pub val: Val,
+    pub idx: [u32; 3],
+    pub nidx: u8,
+    pub maps: u8,
+}
+impl It {
+    fn with_idx(mut self, i: usize, stage: usize) -> It {
+        if i as u64 != self.pos {
+            let pos = self.pos;
+            w(|w| w.violate(&["C15"], format!("enumerate (stage {stage}) paired source item #{pos} with index {i}")));
+        }
+        if (self.nidx as usize) < 3 {
+            self.idx[self.nidx as usize] = i as u32;
+            self.nidx += 1;
+        }
+        self
+    }
+}
+
+#[derive(Default, Clone, Debug)]
+struct Params {
+    seed: u64,
+    len: usize,
+    limits: Vec<usize>,
+    takes: Vec<usize>,
+    err_pct: u32,
+    never_pct: u32,
+    panic_pct: u32,
+    stack: usize,
+    term: u8,
+    src_vec: bool,
+    // filled while building
+    next_limit: usize,
+    next_take: usize,
+    next_stage: usize,
+    eff_limit: Option<usize>,
+    eff_take: Option<usize>,
+    map_stages: Vec<usize>,
+}
+thread_local! { static P: RefCell<Params> = RefCell::new(Params::default()); }
+fn p<T>(f: impl FnOnce(&mut Params) -> T) -> T {
+    P.with(|x| f(&mut x.borrow_mut()))
+}
+fn next_stage(map: bool) -> usize {
+    p(|p| {
+        p.next_stage += 1;
+        if map {
+            p.map_stages.push(p.next_stage);
+        }
+        p.next_stage
+    })
+}
+fn next_take() -> usize {
+    p(|p| {
+        let n = p.takes[p.next_take % p.takes.len()];
+        p.next_take += 1;
+        p.eff_take = Some(p.eff_take.map(|t| t.min(n)).unwrap_or(n));
+        n
+    })
+}
+fn next_limit() -> Option<NonZeroUsize> {
+    p(|p| {
+        let n = p.limits[p.next_limit % p.limits.len()];
+        p.next_limit += 1;
+        // the outermost limit() of the chain is the effective one; limit(None) means unlimited
+        p.eff_limit = if n == 0 { None } else { Some(n) };
+        NonZeroUsize::new(n)
+    })
+}
+
+// ------------------------------------------------------------------------------------------------
+// per-item scripted futures, created by the closures
+
+pub struct WFut {
+    id: Cid,
+    role: u8,
+    done: bool,
+    _pin: PhantomPinned,
+}
+impl WFut {
+    /// role 1 = future returned by the terminal closure, role 2 = future returned by a map closure
+    pub fn new(role: u8, pos: u64, stage: usize) -> WFut {
+        let (seed, err_pct, never_pct, panic_pct) = p(|p| (p.seed, p.err_pct, p.never_pct, p.panic_pct));
+        // the script depends on (seed, item, role, stage) only — not on the order of closure invocations
+        let mut h = mix(mix(seed, pos * 16 + role as u64), stage as u64 + 99);
+        let mut rnd = move || {
+            h ^= h << 13;
+            h ^= h >> 7;
+            h ^= h << 17;
+            h
+        };
+        let mut s = vec![];
+        for _ in 0..(rnd() % 3) {
+            s.push(if rnd() % 2 == 0 { Step::PendSelf } else { Step::PendLater });
+        }
+        if (rnd() % 100) < panic_pct as u64 {
+            s.push(Step::Panic);
+        }
+        if (rnd() % 100) < never_pct as u64 {
+            for _ in 0..48 {
+                s.push(Step::PendNever);
+            }
+        }
+        s.push(if role == 1 && (rnd() % 100) < err_pct as u64 { Step::Err } else { Step::Ok });
+        let id = w(|w| {
+            if w.phase != Phase::Polling {
+                let ph = w.phase;
+                w.violate(&["C03"], format!("closure for item #{pos} invoked outside a poll of the operation (phase {ph:?})"));
+            }
+            let mut c = Child::leaf(Kind::LeafFut, s);
+            c.role = role;
+            c.item = pos;
+            c.created = true;
+            if c.never {
+                w.st.never_children += 1;
+            }
+            w.ch.push(c);
+            w.st.children_created += 1;
+            let id = w.ch.len() - 1;
+            w.co.created.push((role, pos * 100 + stage as u64, id));
+            if role == 1 {
+                w.st.co_closure_calls += 1;
+                w.co.gauge += 1;
+                w.co.max_gauge = w.co.max_gauge.max(w.co.gauge);
+                w.st.co_max_gauge = w.st.co_max_gauge.max(w.co.gauge as u64);
+                if w.co.limit_applies {
+                    w.st.co_gauge_checks += 1;
+                    if w.co.gauge > w.co.limit {
+                        let (g, l) = (w.co.gauge, w.co.limit);
+                        w.violate(&["C13"], format!("concurrency limit {l} exceeded: {g} closure futures are created and not yet completed (at the invocation for item #{pos})"));
+                    }
+                }
+            }
+            id
+        });
+        WFut { id, role, done: false, _pin: PhantomPinned }
+    }
+}
+impl Future for WFut {
+    type Output = R;
+    fn poll(self: Pin<&mut Self>, cx: &mut Context<'_>) -> Poll<R> {
+        // reuse the leaf machinery through a temporary SFut-like path
+        let this = unsafe { self.get_unchecked_mut() };
+        let id = this.id;
+        let r = leaf_poll(id, cx);
+        match r {
+            None => Poll::Pending,
+            Some(Res::Ok(_)) => {
+                this.done = true;
+                let v = Val::new(id);
+                if this.role == 1 {
+                    w(|w| w.co.gauge -= 1);
+                }
+                leaf_finish(id, Res::Ok(v.id));
+                Poll::Ready(Ok(v))
+            }
+            Some(Res::Err(_)) => {
+                this.done = true;
+                let v = Val::new(id);
+                let vid = v.id;
+                w(|w| {
+                    if this.role == 1 {
+                        w.co.gauge -= 1;
+                        w.co.errs.push(vid);
+                        w.st.co_errors += 1;
+                        if w.co.first_err_at.is_none() {
+                            w.co.first_err_at = Some(w.log.len());
+                            // a fallible operation breaks now: an abandoned source legitimately wakes nobody
+                            if FALLIBLE.with(|f| f.get()) && w.ch[0].kind == Kind::LeafStr {
+                                w.ch[0].exempt = true;
+                            }
+                        }
+                    }
+                });
+                leaf_finish(id, Res::Err(vid));
+                Poll::Ready(Err(v))
+            }
+            Some(_) => {
+                leaf_finish(id, Res::Pend);
+                Poll::Pending
+            }
+        }
+    }
+}
+impl Drop for WFut {
+    fn drop(&mut self) {
+        let (id, role, done) = (self.id, self.role, self.done);
+        w(|w| {
+            w.ch[id].dropped += 1;
+            w.ev(Ev::DropChild(id));
+            if !done && role == 1 {
+                w.co.gauge -= 1;
+            }
+        });
+    }
+}
+thread_local! { static FALLIBLE: std::cell::Cell<bool> = std::cell::Cell::new(false); }
+
+/// the scripted source, numbering its items
+struct Numbered {
+    inner: SStr,
+    next: u64,
+}
+impl Stream for Numbered {
+    type Item = It;
+    fn poll_next(self: Pin<&mut Self>, cx: &mut Context<'_>) -> Poll<Option<It>> {
+        let this = unsafe { self.get_unchecked_mut() };
+        let r = unsafe { Pin::new_unchecked(&mut this.inner) }.poll_next(cx);
+        match r {
+            Poll::Pending => Poll::Pending,
+            Poll::Ready(None) => Poll::Ready(None),
+            Poll::Ready(Some(val)) => {
+                let pos = this.next;
+                this.next += 1;
+                let take = p(|p| p.eff_take);
+                w(|w| {
+                    if w.co.first_err_at.is_some() && FALLIBLE.with(|f| f.get()) {
+                        w.co.src_items_after_err += 1;
+                    }
+                    // after its take-th item the source is abandoned
+                    if let Some(t) = take {
+                        if this.next as usize >= t {
+                            w.ch[0].exempt = true;
+                        }
+                    }
+                });
+                Poll::Ready(Some(It { pos, val, idx: [0; 3], nidx: 0, maps: 0 }))
+            }
+        }
+    }
+}
+
+fn map_fut(it: It, stage: usize) -> impl Future<Output = It> {
+    let f = WFut::new(2, it.pos, stage);
+    async move {
+        let r = f.await;
+        drop(r);
+        let mut it = it;
+        it.maps += 1;
+        it
+    }
+}
+
+pub enum CoRes {
+    Unit,
+    Try(Result<(), Val>),
+    Vec(Vec<It>),
+    RVec(Result<Vec<It>, Val>),
+}
+type BF = Pin<Box<dyn Future<Output = CoRes>>>;
+
+fn terminal<S>(s: S, term: u8) -> BF
+where
+    S: ConcurrentStream<Item = It> + 'static,
+{
+    match term {
+        0 => Box::pin(async move {
+            s.for_each(|it: It| {
+                let f = WFut::new(1, it.pos, 0);
+                async move {
+                    let r = f.await;
+                    drop(r);
+                    drop(it);
+                }
+            })
+            .await;
+            CoRes::Unit
+        }),
+        1 => Box::pin(async move {
+            CoRes::Try(
+                s.try_for_each(|it: It| {
+                    let f = WFut::new(1, it.pos, 0);
+                    async move {
+                        let r = f.await;
+                        drop(it);
+                        match r {
+                            Ok(v) => {
+                                drop(v);
+                                Ok(())
+                            }
+                            Err(e) => Err(e),
+                        }
+                    }
+                })
+                .await,
+            )
+        }),
+        2 => Box::pin(async move {
+            CoRes::Vec(
+                s.map(|it: It| {
+                    let f = WFut::new(1, it.pos, 0);
+                    async move {
+                        let r = f.await;
+                        drop(r);
+                        it
+                    }
+                })
+                .collect::<Vec<It>>()
+                .await,
+            )
+        }),
+        3 => Box::pin(async move {
+            CoRes::RVec(
+                s.map(|it: It| {
+                    let f = WFut::new(1, it.pos, 0);
+                    async move {
+                        match f.await {
+                            Ok(v) => {
+                                drop(v);
+                                Ok(it)
+                            }
+                            Err(e) => {
+                                drop(it);
+                                Err(e)
+                            }
+                        }
+                    }
+                })
+                .collect::<Result<Vec<It>, Val>>()
+                .await,
+            )
+        }),
+        _ => Box::pin(async move { CoRes::Vec(s.collect::<Vec<It>>().await) }),
+    }
+}
+
+// NOTE: the inner expression is evaluated first, so parameters are drawn in source-to-terminal order
+macro_rules! stack {
+    ($s:expr;) => { $s };
+    ($s:expr; map $($r:ident)*) => { stack!({ let inner = $s; let sid = next_stage(true); inner.map(move |it: It| map_fut(it, sid)) }; $($r)*) };
+    ($s:expr; enumerate $($r:ident)*) => { stack!({ let inner = $s; let sid = next_stage(false); inner.enumerate().map(move |(i, it): (usize, It)| std::future::ready(it.with_idx(i, sid))) }; $($r)*) };
+    ($s:expr; take $($r:ident)*) => { stack!({ let inner = $s; let n = next_take(); inner.take(n) }; $($r)*) };
+    ($s:expr; limit $($r:ident)*) => { stack!({ let inner = $s; let l = next_limit(); inner.limit(l) }; $($r)*) };
+}
+
+macro_rules! stacks {
+    ($src:ident, $term:ident, $id:ident; $( $n:literal => [$($ops:ident)*] ),* $(,)?) => {
+        match $id {
+            $( $n => terminal(stack!($src; $($ops)*), $term), )*
+            _ => unreachable!("stack id"),
+        }
+    };
+}
+
+pub const STACKS: [&str; 29] = [
+    "", "limit", "map", "enumerate", "take", "limit map", "map limit", "enumerate map", "map enumerate", "take map", "map take", "take enumerate",
+    "enumerate take", "limit take", "take limit", "take take", "limit limit", "map map", "enumerate enumerate", "enumerate limit take",
+    "take enumerate map", "map take limit", "limit map take", "take map enumerate", "enumerate take map", "map enumerate take", "take take map",
+    "limit enumerate map", "map map take",
+];
+
+fn build_full<S: ConcurrentStream<Item = It> + 'static>(src: S, id: usize, term: u8) -> BF {
+    stacks!(src, term, id;
+        0 => [], 1 => [limit], 2 => [map], 3 => [enumerate], 4 => [take], 5 => [limit map], 6 => [map limit], 7 => [enumerate map],
+        8 => [map enumerate], 9 => [take map], 10 => [map take], 11 => [take enumerate], 12 => [enumerate take], 13 => [limit take],
+        14 => [take limit], 15 => [take take], 16 => [limit limit], 17 => [map map], 18 => [enumerate enumerate], 19 => [enumerate limit take],
+        20 => [take enumerate map], 21 => [map take limit], 22 => [limit map take], 23 => [take map enumerate], 24 => [enumerate take map],
+        25 => [map enumerate take], 26 => [take take map], 27 => [limit enumerate map], 28 => [map map take])
+}
+/// the Vec source gets a subset of the stacks (compile time)
+pub const VEC_STACKS: [usize; 8] = [0, 1, 2, 4, 6, 10, 19, 20];
+fn build_vec<S: ConcurrentStream<Item = It> + 'static>(src: S, id: usize, term: u8) -> BF {
+    stacks!(src, term, id;
+        0 => [], 1 => [limit], 2 => [map], 4 => [take], 6 => [map limit], 10 => [map take], 19 => [enumerate limit take], 20 => [take enumerate map])
+}
+
+// ------------------------------------------------------------------------------------------------
+
+pub fn run(prop: &str, thorough: bool, case_seed: u64, sub: u64) -> ExecOut {
+    reset(Src::Rng(case_seed), true);
+    let _ = sub;
+    let c02 = prop == "C02";
+    let (polls0, pend0) = w(|w| (w.st.root_polls, w.st.child_pending));
+    // case parameters
+    let params = w(|w| {
+        w.midfire_pct = 20;
+        let term: u8 = match prop {
+            "C13" => [0, 0, 0, 1][w.below(4)],
+            "C14" => [1, 3][w.below(2)],
+            "C15" => [0, 1, 2, 2, 4][w.below(5)],
+            _ => w.below(5) as u8,
+        };
+        let src_vec = w.below(5) == 0;
+        let stack = if src_vec { VEC_STACKS[w.below(VEC_STACKS.len())] } else { w.below(STACKS.len()) };
+        let maxlen = if thorough { 12 } else { 8 };
+        let len = w.below(maxlen + 1);
+        let limits: Vec<usize> = (0..3).map(|_| [0, 1, 1, 2, 2, 3, 4][w.below(7)]).collect();
+        let takes: Vec<usize> = (0..3).map(|_| [0, 0, 1, 2, 3, 5, 9, 100][w.below(8)]).collect();
+        let fallible = matches!(term, 1 | 3);
+        let err_pct = if fallible { [0, 10, 25, 50, 100][w.below(5)] } else { 0 };
+        let never_pct = if w.below(8) == 0 { 8 } else { 0 };
+        let panic_pct = if c02 && w.below(3) == 0 { 6 } else { 0 };
+        Params { seed: case_seed, len, limits, takes, err_pct, never_pct, panic_pct, stack, term, src_vec, ..Default::default() }
+    });
+    let fallible = matches!(params.term, 1 | 3);
+    FALLIBLE.with(|f| f.set(fallible));
+    P.with(|x| *x.borrow_mut() = params.clone());
+    // child 0 = the source (scripted stream, or a stand-in producer for the Vec source)
+    let src_script: Vec<Step> = w(|w| {
+        let mut s = vec![];
+        for _ in 0..params.len {
+            for _ in 0..w.below(3) {
+                s.push(if w.below(2) == 0 { Step::PendSelf } else { Step::PendLater });
+            }
+            s.push(Step::Item);
+        }
+        for _ in 0..w.below(2) {
+            s.push(Step::PendLater);
+        }
+        if c02 && w.below(10) == 0 {
+            let at = w.below(s.len() + 1);
+            s.insert(at, Step::Panic);
+        }
+        if w.below(16) == 0 {
+            for _ in 0..48 {
+                s.push(Step::PendNever);
+            }
+        }
+        s.push(Step::End);
+        s
+    });
+    let src_never = src_script.contains(&Step::PendNever);
+    w(|w| {
+        let mut c = Child::leaf(Kind::LeafStr, if params.src_vec { vec![] } else { src_script.clone() });
+        if params.src_vec {
+            c.created = false;
+            c.never = false;
+        } else if c.never {
+            w.st.never_children += 1;
+        }
+        w.ch.push(c);
+        w.root = None;
+        w.phase = Phase::Constructing;
+    });
+    let built = std::panic::catch_unwind(std::panic::AssertUnwindSafe(|| {
+        if params.src_vec {
+            let items: Vec<It> = (0..params.len as u64).map(|pos| It { pos, val: Val::new(0), idx: [0; 3], nidx: 0, maps: 0 }).collect();
+            build_vec(items.into_co_stream(), params.stack, params.term)
+        } else {
+            let src = Numbered { inner: SStr::new(0), next: 0 };
+            build_full(src.co(), params.stack, params.term)
+        }
+    }));
+    let pp = p(|p| p.clone());
+    let uses_limit = matches!(params.term, 0 | 1);
+    w(|w| {
+        w.phase = Phase::Idle;
+        w.co.limit = pp.eff_limit.unwrap_or(usize::MAX);
+        w.co.limit_applies = uses_limit && pp.eff_limit.is_some();
+        if pp.eff_take == Some(0) && !params.src_vec {
+            w.ch[0].exempt = true;
+        }
+    });
+    let term_name = ["for_each", "try_for_each", "map+collect<Vec>", "map+collect<Result<Vec>>", "collect<Vec>"][params.term as usize];
+    let mut out = ExecOut {
+        desc: format!(
+            "source={} len={} stack=[{}] terminal={} limits={:?} takes={:?} err_pct={} source_script={:?}",
+            if params.src_vec { "Vec::into_co_stream" } else { "stream.co()" },
+            params.len,
+            STACKS[params.stack],
+            term_name,
+            params.limits,
+            params.takes,
+            params.err_pct,
+            src_script.iter().take(14).collect::<Vec<_>>()
+        ),
+        key: format!("co/{}/{}/{}", if params.src_vec { "vec" } else { "stream" }, STACKS[params.stack].replace(' ', "."), term_name),
+        ..Default::default()
+    };
+    let mut fut: Option<BF> = match built {
+        Ok(f) => Some(f),
+        Err(pn) => {
+            let m = panic_msg(&pn);
+            w(|w| w.violate(&["C13"], format!("constructing the pipeline panicked: {m}")));
+            None
+        }
+    };
+    let cancel_at = w(|w| if w.chance(if c02 { 40 } else { 15 }) { Some(w.below(9)) } else { None });
+    let mut result: Option<CoRes> = None;
+    let mut polls = 0usize;
+    let mut steps = 0usize;
+    let mut next_waker_id = 0usize;
+    let mut prev_waker: Option<(usize, Waker)> = None;
+    let mut cancelled = false;
+    let mut spurious_left = 2;
+    while fut.is_some() {
+        steps += 1;
+        PROGRESS.fetch_add(1, std::sync::atomic::Ordering::Relaxed);
+        if steps > engine_a::STEP_CAP {
+            out.inconclusive = Some("harness step budget exceeded".into());
+            break;
+        }
+        let rl = w(|w| w.root_last);
+        if matches!(rl, RootLast::Final | RootLast::Panicked) {
+            break;
+        }
+        if Some(polls) == cancel_at {
+            cancelled = true;
+            w(|w| w.st.cancels += 1);
+            break;
+        }
+        let (runnable, outstanding, nwakers) = w(|w| {
+            let runnable = w.root_last == RootLast::NotPolled || (w.root_last == RootLast::Pending && w.parent_woken);
+            let o: Vec<Cid> = w.ch.iter().enumerate().filter(|(_, c)| c.later_outstanding).map(|(i, _)| i).collect();
+            let n: usize = w.ch.iter().map(|c| c.wakers.len()).sum();
+            (runnable, o, n)
+        });
+        let mut opts: Vec<u8> = vec![];
+        if runnable {
+            opts.extend([0, 0]);
+        }
+        if !outstanding.is_empty() {
+            opts.extend([1, 1]);
+        }
+        if nwakers > 0 && w(|w| w.chance(10)) {
+            opts.push(2);
+        }
+        if spurious_left > 0 && !runnable && rl != RootLast::NotPolled && w(|w| w.chance(8)) {
+            opts.push(3);
+        }
+        if opts.is_empty() {
+            break;
+        }
+        match opts[w(|w| w.below(opts.len()))] {
+            o @ (0 | 3) => {
+                if o == 3 {
+                    spurious_left -= 1;
+                    w(|w| w.st.spurious_polls += 1);
+                }
+                polls += 1;
+                let reuse = prev_waker.is_some() && w(|w| w.chance(10));
+                let (wid, waker) = if reuse {
+                    prev_waker.clone().unwrap()
+                } else {
+                    next_waker_id += 1;
+                    (next_waker_id, Waker::from(Arc::new(ParentWaker(next_waker_id))))
+                };
+                w(|w| {
+                    w.root_polls += 1;
+                    w.st.root_polls += 1;
+                    w.parent_cur = wid;
+                    w.parent_woken = false;
+                    w.phase = Phase::Polling;
+                    w.injected_seen = false;
+                    let n = w.root_polls;
+                    w.ev(Ev::ExecPoll { n, waker: wid, spurious: o == 3 });
+                });
+                let mut cx = Context::from_waker(&waker);
+                let r = std::panic::catch_unwind(std::panic::AssertUnwindSafe(|| fut.as_mut().unwrap().as_mut().poll(&mut cx)));
+                prev_waker = Some((wid, waker));
+                match r {
+                    Ok(Poll::Ready(res)) => {
+                        result = Some(res);
+                        w(|w| {
+                            w.phase = Phase::Idle;
+                            w.poll_stack.clear();
+                            w.root_last = RootLast::Final;
+                            w.ev(Ev::ExecRet(Res::End));
+                        });
+                    }
+                    Ok(Poll::Pending) => {
+                        w(|w| {
+                            w.phase = Phase::Idle;
+                            w.poll_stack.clear();
+                            w.root_last = RootLast::Pending;
+                            w.st.root_pending += 1;
+                            w.ev(Ev::ExecRet(Res::Pend));
+                            model::i1_check(w, "after poll");
+                        });
+                    }
+                    Err(pn) => {
+                        let inj = pn.is::<Injected>();
+                        let m = panic_msg(&pn);
+                        w(|w| {
+                            w.phase = Phase::Idle;
+                            w.poll_stack.clear();
+                            w.root_last = RootLast::Panicked;
+                            w.ev(Ev::ExecRet(Res::Panicked));
+                            if !inj {
+                                w.violate(&["C13"], format!("polling the operation panicked (not an injected panic): {m}"));
+                            }
+                        });
+                    }
+                }
+            }
+            1 => {
+                let c = outstanding[w(|w| w.below(outstanding.len()))];
+                let (i, bv) = w(|w| (w.ch[c].wakers.len() - 1, w.below(4) == 0));
+                fire(c, i, bv, FireCtx::Between);
+                w(|w| model::i1_check(w, "after fire"));
+            }
+            _ => {
+                let (c, i, bv) = w(|w| {
+                    let with: Vec<Cid> = w.ch.iter().enumerate().filter(|(_, c)| !c.wakers.is_empty()).map(|(i, _)| i).collect();
+                    let c = with[w.below(with.len())];
+                    let k = w.ch[c].wakers.len();
+                    (c, w.below(k), w.below(4) == 0)
+                });
+                fire(c, i, bv, FireCtx::Between);
+                w(|w| model::i1_check(w, "after stale fire"));
+            }
+        }
+    }
+    let rl = w(|w| w.root_last);
+    if !cancelled && out.inconclusive.is_none() && rl == RootLast::Pending {
+        w(|w| model::i6_check(w));
+    }
+    // ---- oracles on the outcome --------------------------------------------------------------------
+    let completed = result.is_some();
+    let n_expected = params.len.min(pp.eff_take.unwrap_or(usize::MAX));
+    let expected: Vec<u64> = (0..n_expected as u64).collect();
+    let mut received: Vec<Val> = vec![];
+    w(|w| {
+        let co = w.co.clone();
+        // every closure at most once per item, at every stage (always — also when cancelled)
+        let mut per: BTreeMap<(u8, u64), usize> = BTreeMap::new();
+        for (role, key, _) in &co.created {
+            *per.entry((*role, *key)).or_default() += 1;
+        }
+        for ((role, key), n) in &per {
+            if *n != 1 {
+                let (pos, stage) = (key / 100, key % 100);
+                let prop: &'static str = if *role == 1 && params.term <= 1 { "C13" } else { "C15" };
+                w.violate(&[prop], format!("{} closure (stage {stage}) invoked {n} times for source item #{pos}", if *role == 1 { "terminal" } else { "map" }));
+            }
+        }
+        // nothing beyond the first min(take, len) items is ever processed
+        for (role, key, _) in &co.created {
+            let pos = key / 100;
+            if pos as usize >= n_expected {
+                w.violate(&["C15"], format!("item #{pos} was processed (role {role}) although only the first {n_expected} items may be (take = {:?}, len = {})", pp.eff_take, params.len));
+                break;
+            }
+        }
+        if fallible && co.src_items_after_err > 0 {
+            w.violate(&["C14"], format!("{} item(s) were taken from the source after a work future had returned Err", co.src_items_after_err));
+        }
+    });
+    if completed {
+        let co = w(|w| w.co.clone());
+        let processed = |role: u8, stage: u64| -> Vec<u64> {
+            let mut v: Vec<u64> = co.created.iter().filter(|c| c.0 == role && c.1 % 100 == stage).map(|c| c.1 / 100).collect();
+            v.sort();
+            v
+        };
+        let term_done: Vec<u64> = processed(1, 0);
+        let has_term_closure = params.term != 4;
+        let mut check_all_processed = |what: &str, prop: &'static str| {
+            if has_term_closure && term_done != expected {
+                w(|w| w.violate(&[prop], format!("{what}: terminal closure processed items {term_done:?}, expected exactly {expected:?}")));
+            }
+            for st in &pp.map_stages {
+                let got = processed(2, *st as u64);
+                if got != expected {
+                    w(|w| w.violate(&["C15"], format!("{what}: map closure of stage {st} ran for items {got:?}, expected exactly {expected:?}")));
+                }
+            }
+        };
+        let check_items = |items: &Vec<It>, prop: &'static str| {
+            let mut pos: Vec<u64> = items.iter().map(|i| i.pos).collect();
+            pos.sort();
+            if pos != expected {
+                w(|w| w.violate(&[prop], format!("collect returned items {pos:?}, expected exactly the multiset {expected:?}")));
+            }
+            for it in items {
+                it.val.check_live("collected item");
+                if it.maps as usize != pp.map_stages.len() {
+                    let (m, p0) = (it.maps, it.pos);
+                    w(|w| w.violate(&["C15"], format!("collected item #{p0} went through {m} map closures, the pipeline has {}", pp.map_stages.len())));
+                }
+            }
+        };
+        match result.take().unwrap() {
+            CoRes::Unit => {
+                check_all_processed("for_each resolved", "C13");
+                // structured: resolves only after every closure future completed
+                w(|w| {
+                    let unfinished: Vec<Cid> = co.created.iter().filter(|c| c.0 == 1 && w.ch[c.2].last != Last::Done).map(|c| c.2).collect();
+                    if !unfinished.is_empty() {
+                        w.violate(&["C13"], format!("for_each resolved while closure futures {unfinished:?} had not completed"));
+                    }
+                });
+            }
+            CoRes::Try(Ok(())) => {
+                if !co.errs.is_empty() {
+                    w(|w| w.violate(&["C14"], format!("try_for_each returned Ok although {} closure future(s) returned Err", co.errs.len())));
+                }
+                check_all_processed("try_for_each returned Ok", "C14");
+                w(|w| {
+                    let unfinished: Vec<Cid> = co.created.iter().filter(|c| c.0 == 1 && w.ch[c.2].last != Last::Done).map(|c| c.2).collect();
+                    if !unfinished.is_empty() {
+                        w.violate(&["C14"], format!("try_for_each returned Ok while closure futures {unfinished:?} had not completed"));
+                    }
+                });
+            }
+            CoRes::Try(Err(e)) => {
+                let id = e.check_live("try_for_each error");
+                if !co.errs.contains(&id) {
+                    w(|w| w.violate(&["C14"], format!("try_for_each returned error v{id}, which no closure future returned")));
+                }
+                received.push(e);
+            }
+            CoRes::Vec(items) => {
+                check_items(&items, "C15");
+                check_all_processed("collect resolved", "C15");
+                drop(items);
+            }
+            CoRes::RVec(Ok(items)) => {
+                if !co.errs.is_empty() {
+                    w(|w| w.violate(&["C14"], format!("collect returned Ok although {} item future(s) returned Err", co.errs.len())));
+                }
+                check_items(&items, "C14");
+                check_all_processed("collect::<Result> returned Ok", "C14");
+                drop(items);
+            }
+            CoRes::RVec(Err(e)) => {
+                let id = e.check_live("collect error");
+                if !co.errs.contains(&id) {
+                    w(|w| w.violate(&["C14"], format!("collect returned error v{id}, which no item future returned")));
+                }
+                received.push(e);
+            }
+        }
+    }
+    let _ = src_never;
+    engine_a::finish(&mut out, fut.take().map(|f| Box::new(move || drop(f)) as Box<dyn FnOnce()>), received, polls0, pend0, cancelled);
+    out
+}
